@@ -78,6 +78,7 @@ def gen_case(r: np.random.Generator, idx: int, tier: str) -> dict:
         "ll": [float(v) for v in ll], "lp": [float(v) for v in lp], "lq": [float(v) for v in lq],
         "u": [float(v) for v in u], "perm": [int(v) for v in perm], "shift": shift,
         "spec": str(r.choice(["native", "string"])),
+        "raw_namespace": bool((idx // 5) % 2),
     }
 
 
@@ -96,6 +97,9 @@ def run_impl(case: dict, ll=None, lp=None, lq=None) -> dict:
     from aspire.utils import effective_sample_size, logsumexp
 
     xp = ns.get_xp(case["ns"])
+    if case.get("raw_namespace"):
+        # the namespace as users write it: the library module itself (`xp=torch`, `xp=numpy`), not its array-API wrapper
+        xp = __import__(case["ns"]) if case["ns"] != "jax" else xp
     w = case["width"]
     dtype = ns.native_dtype(case["ns"], w) if case["spec"] == "native" else {"f32": "float32", "f64": "float64"}[w]
     ll = np.asarray(case["ll"] if ll is None else ll)
